@@ -242,6 +242,22 @@ func init() {
 		}
 		return out
 	}
+	c03b := findCheck("C03")
+	c03b.Harnesses = append(c03b.Harnesses, Harness{Name: "C03_big", Pkg: "zzh", Func: "H_C03_big", Reach: []string{"done"},
+		What: "Add/Sub/Mul/Scale (thorough + Div, ElMax) on operands of 8193..9216 elements (shapes [9,1024], [8193]; thorough + [4,2048], [11,800]): every position holds the defined value; elements fixed except ~30 solver-chosen ones per operand",
+		Items: tiered(func() []Item {
+			return mergeItems(sItems("op", []string{"Sub", "Scale"}, items(map[string]int64{"n0": 9, "n1": 1024})), sItems("op", []string{"Add", "Mul"}, items(map[string]int64{"n0": 8193})))
+		}, func() []Item {
+			return sItems("op", []string{"Add", "Sub", "Mul", "Div", "ElMax", "Scale"}, items(map[string]int64{"n0": 9, "n1": 1024}, map[string]int64{"n0": 8193}, map[string]int64{"n0": 4, "n1": 2048}, map[string]int64{"n0": 11, "n1": 800}))
+		})})
+	c17 := findCheck("C17")
+	c17.Harnesses = append(c17.Harnesses, Harness{Name: "C17_big", Pkg: "zzh", Func: "H_C17_big", Reach: []string{"done"},
+		What: "one SGD step on parameters of 8193..13312 elements (shapes [9,1024], [8193]; thorough + [4,2048], [11,800], [13,32,32], [4099,2]): every element is w - lr*g, old tensor and gradient untouched; elements fixed except ~30 solver-chosen ones per tensor, lr symbolic",
+		Items: tiered(func() []Item {
+			return items(map[string]int64{"n0": 9, "n1": 1024}, map[string]int64{"n0": 8193})
+		}, func() []Item {
+			return items(map[string]int64{"n0": 9, "n1": 1024}, map[string]int64{"n0": 8193}, map[string]int64{"n0": 4, "n1": 2048}, map[string]int64{"n0": 11, "n1": 800}, map[string]int64{"n0": 13, "n1": 32, "n2": 32}, map[string]int64{"n0": 4099, "n1": 2})
+		})})
 	c03 := findCheck("C03")
 	c03.Harnesses = append(c03.Harnesses, Harness{Name: "C03_fp", Pkg: "zzh", Func: "H_C03_fp", Reach: []string{"done"}, FP: true,
 		What: "BIT-PRECISE (binary64): for all finite doubles of magnitude <= 1e300, ElMax / ElMin return one of their operands unchanged and bound both; Gt/Ge/Lt/Le are exactly 1 or 0 by the IEEE comparison (vectors of 1..2 elements)",
